@@ -193,7 +193,7 @@ var ctlStrings = []string{"\x00", "a\x00b", "\n", "a\tb", "\x7f", " ", "a b", "\
 var badUTF8 = []string{"\xff", "\xc3\x28", "\xff\xfe", "\xed\xa0\x80", "\xf8\x88\x80\x80\x80", "a\x80b", "\xc0\xaf", "\xe2\x28\xa1"}
 var uniStrings = []string{"\u65e5\u672c\u8a9e", "\u00e9", "\u202eabc", "a\u200bb", "\U0001f600", "\ufeffa", "a\u0301", "\u0130", "\u00df", "\u00a0", "\u03a9\u2248\u00e7\u221a\u222b", "\U0010ffff", "\u2028", "\u0085"}
 var oddStrings = []string{"%s%n%x", "../../etc/passwd", "${jndi:ldap://x}", "' OR 1=1--", "\\", "\"", "{{.}}", "<script>", "-1", "0", "9223372036854775808", "1e309", "NaN", "null", "true", "[]", "{}"}
-var longLens = []int{50, 51, 254, 255, 256, 257, 511, 512, 513, 1000, 4096, 65536, 1 << 20, 3 << 20}
+var longLens = []int{50, 51, 100, 200, 240, 250, 251, 252, 254, 255, 256, 257, 511, 512, 513, 1000, 4096, 65536, 1 << 20, 3 << 20}
 
 // hostile returns a hostile string; prefix (e.g. "doc:") is prepended in half of the cases when given.
 func (g *G) hostile(label, prefix string) HS {
@@ -202,13 +202,13 @@ func (g *G) hostile(label, prefix string) HS {
 	case 0:
 		h = raw(pickOf(g, label+"Sep", sepStrings))
 	case 1:
-		max := 10
+		max := 16
 		if g.thorough {
 			max = len(longLens) - 1
 		} else if g.chance(label+"Huge", 10) {
 			max = len(longLens) - 1
 		}
-		h = HS{Pre: pickOf(g, label+"Unit", []string{"a", "ab:", "é", "#"}), PreN: longLens[g.n(label+"Len", 0, max)]}
+		h = HS{Pre: pickOf(g, label+"Unit", []string{"a", "a", "ab:", "é", "#"}), PreN: longLens[g.n(label+"Len", 0, max)]}
 		if h.Pre != "a" {
 			h.PreN /= len(h.Pre)
 		}
